@@ -234,12 +234,18 @@ def main():
         "known_finding_cases": {k: len(v) for k, v in chk.known_hits.items()},
         "notes": chk.notes,
     }
-    if coverage["obligations"] == 0:
+    has_thm = run.has_theorem_file(prop)
+    if not has_thm:
         coverage.pop("obligations")
         coverage.pop("discharged")
+    elif coverage["obligations"] == 0:
+        # the proofs did not get as far as being counted (build broken): all obligations are open
+        coverage["obligations"] = run.count_theorems(prop)
+        coverage["discharged"] = 0
     run.write_evidence(prop, args.tier, args.seed, wall, coverage, len(violations_out),
                        ["the Coq model mirrors the code by hand; the tie is the differential check above",
-                        "external libraries are modelled by their specification (see trusted_base)"])
+                        "external libraries are modelled by their specification (see trusted_base)"],
+                       level="proof" if has_thm else "exploration", official=not args.skip_proofs)
     print("[done] %s tier=%s cases=%d nontrivial=%d violations=%d wall=%.1fs" %
           (prop, args.tier, len(chk.cases), len(chk.nontrivial), len(violations_out), wall))
     return 1 if violations_out else 0
